@@ -31,6 +31,24 @@ def max_radius(depth, cap):
     return math.degrees(math.acos(1.0 - x))
 
 
+def tier():
+    """Tier of the running ./check invocation (strategies have no ctx): --tier on the command
+    line, else VERIF_TIER, else quick.  Only used to pick the cost cap of generated cases."""
+    import os
+    import sys
+    argv = sys.argv
+    for i, a in enumerate(argv):
+        if a == "--tier" and i + 1 < len(argv):
+            return argv[i + 1]
+        if a.startswith("--tier="):
+            return a.split("=", 1)[1]
+    return os.environ.get("VERIF_TIER", "quick")
+
+
+def cap(quick=2e3, thorough=5e4):
+    return thorough if tier() == "thorough" else quick
+
+
 def pow10(lo, hi):
     return st.floats(lo, hi).map(lambda e: 10.0 ** e)
 
